@@ -554,6 +554,32 @@ func c11Reconnect(k c11Case, rng *rand.Rand) (sig, detail string, trace []string
 			}) {
 				return "inconclusive", "CONNECT not seen", nil
 			}
+			// while the handshake is pending, other calls on the client stay bounded by their own contexts
+			// (only the queueing calls of the retrying client are held to this here: a BaseClient call such as Ping
+			// issued on a client whose Connect is in progress waits for that Connect by design - "requests issued
+			// meanwhile wait for the end of Connect" - which is recorded in DESIGN.md section 7, not asserted)
+			for _, side := range []string{"Publish"} {
+				sctx, scancel := context.WithTimeout(context.Background(), 100*time.Millisecond)
+				sdone := make(chan error, 1)
+				go func(side string) {
+					cs := tr.Call("ReconnectClient."+side, "during handshake")
+					var err error
+					if side == "Publish" {
+						err = rc.Publish(sctx, &mqtt.Message{Topic: "c11/side", QoS: mqtt.QoS1, Payload: []byte("s")})
+					} else {
+						err = rc.Ping(sctx)
+					}
+					tr.Ret(cs, "ReconnectClient."+side, "during handshake", err)
+					sdone <- err
+				}(side)
+				select {
+				case <-sdone:
+					scancel()
+				case <-time.After(scen.Watchdog):
+					scancel()
+					return fail("blocked-forever", "ReconnectClient.%s called while the CONNACK is awaited did not return although its context (100 ms) expired %v ago", side, scen.Watchdog)
+				}
+			}
 		case "rc-backoff":
 			if !tr.WaitFor(scen.Watchdog, func() bool {
 				for _, e := range tr.Events {
